@@ -75,7 +75,10 @@ type observation struct {
 	CapEvents []capEvent   `json:"capacity_changes,omitempty"`
 	Nonce     int32        `json:"-"`
 	Panics    []string     `json:"panics,omitempty"`
-	WallMs    int64        `json:"wall_ms"`
+	// Stuck: a call into the client did not return, or process() did not return after its context was
+	// cancelled, within the (patient) deadline: the client blocks for ever
+	Stuck  string `json:"stuck,omitempty"`
+	WallMs int64  `json:"wall_ms"`
 }
 
 type capEvent struct {
@@ -100,6 +103,78 @@ type scen struct {
 	gated int32
 
 	failedAny int32 // a send of this scenario has reported an error
+
+	lastMade int64 // unix nanos of the consumer's last progress (queue mode)
+	callMu   sync.Mutex
+	calls    map[int64]callInfo // calls into the client that have not returned yet
+	callSeq  int64
+	hung     chan string // receives once when a call has been inside the client for longer than callWatchdog
+	hungOnce sync.Once
+}
+
+type callInfo struct {
+	what  string
+	since time.Time
+}
+
+// Deadlines for "the client blocks for ever".  The send lock is process-wide, so in a batch process a call can
+// wait for other clients' writes; alone in a process nothing competes.  Patient on purpose: a hang is
+// established once, by re-running the scenario alone (isolate.go).
+var (
+	callWatchdog  = 60 * time.Second // one call into the client (Send, SendAndClear, ApplyConfig, Close)
+	stopWatchdog  = 45 * time.Second // process() returning after its context was cancelled
+	stallProgress = 30 * time.Second // queue mode: packs queued and the consumer has not taken one for that long
+)
+
+// enter / leave bracket every call into the client.
+func (sc *scen) enter(what string) int64 {
+	sc.callMu.Lock()
+	defer sc.callMu.Unlock()
+	if sc.calls == nil {
+		sc.calls = map[int64]callInfo{}
+	}
+	sc.callSeq++
+	sc.calls[sc.callSeq] = callInfo{what, time.Now()}
+	return sc.callSeq
+}
+func (sc *scen) leave(id int64) {
+	sc.callMu.Lock()
+	delete(sc.calls, id)
+	sc.callMu.Unlock()
+}
+
+// watchCalls reports (once) a call that has not returned within callWatchdog.
+func (sc *scen) watchCalls(stop <-chan struct{}) {
+	t := time.NewTicker(500 * time.Millisecond)
+	defer t.Stop()
+	for {
+		select {
+		case <-stop:
+			return
+		case <-t.C:
+		}
+		sc.callMu.Lock()
+		var worst string
+		for _, c := range sc.calls {
+			if d := time.Since(c.since); d > callWatchdog {
+				worst = fmt.Sprintf("%s has not returned for %v", c.what, d.Round(time.Second))
+			}
+		}
+		sc.callMu.Unlock()
+		if worst != "" && sc.hung != nil {
+			sc.hungOnce.Do(func() { sc.hung <- worst })
+			return
+		}
+	}
+}
+
+// consumerStalled: queue mode, accepted packs are waiting and process() has not taken one for stallProgress.
+func (sc *scen) consumerStalled() bool {
+	if sc.spec.Mode != "queue" || sc.spec.Batch || sc.backlog() <= 0 || atomic.LoadInt32(&sc.gated) == 1 {
+		return false
+	}
+	last := atomic.LoadInt64(&sc.lastMade)
+	return last != 0 && time.Since(time.Unix(0, last)) > stallProgress
 }
 
 func (sc *scen) backlog() int64 { return atomic.LoadInt64(&sc.nOk) - atomic.LoadInt64(&sc.nMade) }
@@ -168,6 +243,7 @@ func (sc *scen) doSendLen(r *vh.Rng, sender, seq, big, target, cyc int) *sendRec
 		}
 		atomic.StoreInt64(&made, sc.clk.tick())
 		atomic.AddInt64(&sc.nMade, 1)
+		atomic.StoreInt64(&sc.lastMade, time.Now().UnixNano())
 	}}
 	var opts []wnet.TcpClientOption
 	if lic != "" {
@@ -181,6 +257,8 @@ func (sc *scen) doSendLen(r *vh.Rng, sender, seq, big, target, cyc int) *sendRec
 	}
 	var err error
 	rec.Inv = sc.clk.tick()
+	callID := sc.enter(rec.Entry)
+	defer sc.leave(callID)
 	out := vh.Guard(func() {
 		switch rec.Entry {
 		case "Send":
@@ -246,7 +324,7 @@ func (sc *scen) waitArrived(frame []byte, d time.Duration) bool {
 		if sc.arrived(frame) {
 			return true
 		}
-		if time.Now().After(deadline) {
+		if time.Now().After(deadline) || sc.consumerStalled() {
 			return false
 		}
 		select {
@@ -256,7 +334,10 @@ func (sc *scen) waitArrived(frame []byte, d time.Duration) bool {
 	}
 }
 
-func runScenario(spec scenarioSpec) *observation {
+func runScenario(spec scenarioSpec) *observation { return runScenarioWatch(spec, nil) }
+
+// runScenarioWatch: hung (may be nil) receives a description when a call into the client does not return.
+func runScenarioWatch(spec scenarioSpec, hung chan string) *observation {
 	t0 := time.Now()
 	clk := &clock{}
 	lg := &hookLogger{clk: clk}
@@ -270,7 +351,10 @@ func runScenario(spec scenarioSpec) *observation {
 		obs.Infra = "listen: " + err.Error()
 		return obs
 	}
-	sc := &scen{spec: spec, clk: clk, lg: lg, srv: srv, nonce: int32(vh.NewRng(spec.Seed ^ uint64(time.Now().UnixNano())).U64())}
+	sc := &scen{spec: spec, clk: clk, lg: lg, srv: srv, nonce: int32(vh.NewRng(spec.Seed ^ uint64(time.Now().UnixNano())).U64()), hung: hung}
+	watchStop := make(chan struct{})
+	defer close(watchStop)
+	go sc.watchCalls(watchStop)
 	obs.Nonce = sc.nonce
 	if (len(spec.Reconfig) > 0 || spec.Stall) && spec.Mode == "queue" {
 		sc.gate = make(chan struct{})
@@ -328,7 +412,9 @@ func runScenario(spec scenarioSpec) *observation {
 					h = host + "," + host
 				}
 				conf := &stubConf{m: map[string]string{"license": defaultLicense, "whatap.server.host": h, "pcode": "4711", "oid": "99"}}
+				id := sc.enter("ApplyConfig")
 				vh.Guard(func() { sc.c.ApplyConfig(conf) })
+				sc.leave(id)
 			}
 		}()
 	}
@@ -370,7 +456,9 @@ func runScenario(spec scenarioSpec) *observation {
 				}
 				rec := sc.doSendLen(r, sender, seq, big, target, cyc)
 				if spec.Batch && (cyc == len(spec.Sizes)-1 || len(spec.Sizes) == 0) {
+					id := sc.enter("SendAndClear")
 					vh.Guard(func() { _ = sc.c.SendAndClear() })
+					sc.leave(id)
 				}
 				if spec.IdleMs > 0 {
 					time.Sleep(time.Duration(spec.IdleMs) * time.Millisecond)
@@ -428,6 +516,8 @@ func runScenario(spec scenarioSpec) *observation {
 	// the connection failures it is waiting for), so a loaded machine cannot cause a false alarm.
 	closerStart := time.Now()
 	attempts := 0
+	noProgress := false
+	atomic.CompareAndSwapInt64(&sc.lastMade, 0, time.Now().UnixNano())
 	for seq := 0; !obs.Recovered; seq++ {
 		if attempts >= 10 && time.Since(closerStart) > 20*time.Second && srv.scriptDone() {
 			break
@@ -435,9 +525,17 @@ func runScenario(spec scenarioSpec) *observation {
 		if time.Since(closerStart) > 240*time.Second {
 			break
 		}
+		if sc.consumerStalled() {
+			// accepted packs are queued and process() takes none: it is blocked, or the machine is far too
+			// slow; which of the two shows when it is asked to stop
+			noProgress = true
+			break
+		}
 		rec := sc.doSend(r, spec.Senders, seq, 0)
 		if spec.Batch {
+			id := sc.enter("SendAndClear")
 			vh.Guard(func() { _ = sc.c.SendAndClear() })
+			sc.leave(id)
 		}
 		if rec.Class == "enqueue" {
 			// queue full: not an attempt, wait for room
@@ -460,10 +558,19 @@ func runScenario(spec scenarioSpec) *observation {
 	sc.c.StopForVerif()
 	select {
 	case <-done:
-	case <-time.After(20 * time.Second):
-		obs.Infra = "process() did not stop within 20 s after cancel"
+		if noProgress {
+			obs.Infra = fmt.Sprintf("process() took no queued pack for %v and then stopped normally: machine too slow for this scenario", stallProgress)
+		}
+	case <-time.After(stopWatchdog):
+		// not an infrastructure matter: the goroutine is blocked inside the client (a lock that is never
+		// released, a write without deadline): the application's packs are accepted and never sent
+		obs.Stuck = fmt.Sprintf("process() did not return within %v after its context was cancelled (%d accepted packs still queued)", stopWatchdog, sc.backlog())
 	}
-	_ = sc.c.Close()
+	if obs.Stuck == "" {
+		id := sc.enter("Close")
+		_ = sc.c.Close()
+		sc.leave(id)
+	}
 	// the collector stand-in reads to EOF on whatever is still open
 	deadline := time.Now().Add(10 * time.Second)
 	for {
